@@ -46,4 +46,7 @@ NatStr(n) == IF n < 10 THEN Digit[n + 1] ELSE NatStr(n \div 10) \o Digit[(n % 10
 Address(r, c) == "$" \o ColLetters(c) \o "$" \o NatStr(r)
 \* column number of a column spelled by 1..3 letter indices
 ColNumber(ls) == IF Len(ls) = 1 THEN ls[1] ELSE IF Len(ls) = 2 THEN 26 * ls[1] + ls[2] ELSE 676 * ls[1] + 26 * ls[2] + ls[3]
+\* COLUMN(reference): the number of the reference's first column; a cell evaluates to ONE value (no spilling: the cells beside the
+\* formula keep their own content - the frame condition the generator exports as "neighbours unchanged")
+ColumnOfArea(c1, c2) == c1
 =============================================================================
